@@ -3,6 +3,7 @@ package homescript
 import (
 	"fmt"
 
+	"github.com/smarthome-go/homescript/v3/homescript/diagnostic"
 	"github.com/smarthome-go/homescript/v3/homescript/errors"
 )
 
@@ -333,7 +334,7 @@ var verifModuleTexts = []struct {
 	{"unclosed-string", "pub fn item() -> int { println(\"abc); return 1; }\nfn main() { }\n", true},
 	{"illegal-character", "pub fn item() -> int { return 1 ` 2; }\nfn main() { }\n", true},
 	{"missing-semicolon", "pub fn item() -> int { let a = 1 return a; }\nfn main() { }\n", true},
-	{"ill-typed", "pub fn item() -> int { return \"s\"; }\nfn main() { }\n", false},
+	{"ill-typed", "pub fn item() -> int {\n  let a = 1;\n\n\n\n  let x: str = a / 2;\n  return a;\n}\nfn main() { }\n", false},
 	{"empty", "", false},
 }
 
@@ -401,6 +402,16 @@ func VerifHarness_ImportGraphs() {
 	}
 	if text == 7 || text == 1 || text == 8 {
 		errors.VerifAssert("defective-module-rejected", an.hasError)
+	}
+	if text == 7 {
+		// the type error sits inside the module (line 6 of its text): the diagnostic names that module and that line
+		named := false
+		for _, d := range an.diags {
+			if d.Level == diagnostic.DiagnosticLevelError && d.Span.Filename == "broken" && d.Span.Start.Line == 6 {
+				named = true
+			}
+		}
+		errors.VerifAssert("diagnostic-inside-a-module-names-that-module-and-line", named)
 	}
 	if errors.VerifParam("spans", 0) == 1 {
 		verifCheckReportedSpansIn(an, modules)
